@@ -20,6 +20,44 @@
 namespace c15 {
 using namespace verif;
 
+// ---- harness-scripted deviations of one party: its point-to-point channel is wrapped -------------------------
+struct Script {
+	std::set<size_t> wrong;       // recipients whose first message of a pair (the share s) is sent as s+1 mod q
+	std::set<size_t> drop;        // recipients that get nothing (silence towards a subset): both messages of the pair dropped
+	size_t pair_base = 0;         // index (per recipient) of the first message of the tampered pair (0 = the first sharing)
+	long inject_on_send = -1;     // inject a broadcast before the k-th Send (total count) ...
+	long inject_on_recv = -1;     // ... or after the k-th successful Receive (total count)
+	long inject_value = -1;       // the injected broadcast value (a false complaint: index of the accused party)
+	bool active() const { return !wrong.empty() || !drop.empty() || inject_value >= 0; }
+};
+class TamperUnicast : public aiounicast_select {
+public:
+	Script sc; mpz_t q; std::vector<size_t> sent; long nsend, nrecv; CachinKursawePetzoldShoupRBC **rbcp; bool injected;
+	TamperUnicast(const Script &sc_in, mpz_srcptr q_in, CachinKursawePetzoldShoupRBC **rbcp_in, const size_t n_in, const size_t j_in,
+		const std::vector<int> &fd_in_in, const std::vector<int> &fd_out_in, const std::vector<std::string> &key_in, const size_t sched, const time_t T)
+		: aiounicast_select(n_in, j_in, fd_in_in, fd_out_in, key_in, sched, T), sc(sc_in), sent(n_in, 0), nsend(0), nrecv(0), rbcp(rbcp_in), injected(false)
+	{ mpz_init_set(q, q_in); }
+	void inject() { if (!injected && sc.inject_value >= 0 && *rbcp) { injected = true; mpz_t v; mpz_init_set_ui(v, (unsigned long)sc.inject_value); (*rbcp)->Broadcast(v); mpz_clear(v); } }
+	using aiounicast_select::Send;
+	using aiounicast_select::Receive;
+	bool Send(mpz_srcptr m, const size_t i_in, time_t timeout) override {
+		if (sc.inject_on_send >= 0 && nsend == sc.inject_on_send) inject();
+		nsend++;
+		size_t k = sent[i_in]++;
+		if (sc.drop.count(i_in) && (k == sc.pair_base || k == sc.pair_base + 1)) return true;       // nothing leaves this party
+		if (sc.wrong.count(i_in) && k == sc.pair_base) {
+			mpz_t m2; mpz_init(m2); mpz_add_ui(m2, m, 1L); mpz_mod(m2, m2, q);
+			bool r = aiounicast_select::Send(m2, i_in, timeout); mpz_clear(m2); return r;
+		}
+		return aiounicast_select::Send(m, i_in, timeout);
+	}
+	bool Receive(mpz_ptr m, size_t &i_out, size_t scheduler, time_t timeout) override {
+		bool r = aiounicast_select::Receive(m, i_out, scheduler, timeout);
+		if (r) { nrecv++; if (sc.inject_on_recv >= 0 && nrecv == sc.inject_on_recv) inject(); }
+		return r;
+	}
+};
+
 struct Party {                       // what a role function gets (inside the child process)
 	size_t n, t, me;
 	aiounicast_select *aiou, *aiou2;
@@ -47,7 +85,8 @@ struct RunResult {
 inline double now_s() { struct timespec ts; clock_gettime(CLOCK_MONOTONIC, &ts); return ts.tv_sec + ts.tv_nsec * 1e-9; }
 
 // run n parties; roles[i] is executed in child i.  T = default time-out (seconds) of the unicast and broadcast channels.
-inline RunResult run_parties(size_t n, size_t t_rbc, const std::vector<Role> &roles, time_t T, double deadline_s, uint64_t seedbase)
+inline RunResult run_parties(size_t n, size_t t_rbc, const std::vector<Role> &roles, time_t T, double deadline_s, uint64_t seedbase,
+                             const std::map<size_t, Script> *scripts = 0, mpz_srcptr q_for_scripts = 0)
 {
 	RunResult rr; rr.lines.resize(n); rr.status.assign(n, 0); rr.deadline_hit = false;
 	double t0 = now_s();
@@ -79,7 +118,11 @@ inline RunResult run_parties(size_t n, size_t t_rbc, const std::vector<Role> &ro
 			int rc = 0;
 			try {
 				Party P; P.n = n; P.t = t_rbc; P.me = me; P.out_fd = res[me][1]; P.ctl_fd = ctl[me][0];
-				P.aiou = new aiounicast_select(n, me, uin, uout, ukey, aiounicast::aio_scheduler_roundrobin, T);
+				P.rbc = 0;
+				if (scripts && scripts->count(me) && scripts->at(me).active())
+					P.aiou = new TamperUnicast(scripts->at(me), q_for_scripts, &P.rbc, n, me, uin, uout, ukey, aiounicast::aio_scheduler_roundrobin, T);
+				else
+					P.aiou = new aiounicast_select(n, me, uin, uout, ukey, aiounicast::aio_scheduler_roundrobin, T);
 				P.aiou2 = new aiounicast_select(n, me, bin, bout, bkey, aiounicast::aio_scheduler_roundrobin, T);
 				P.rbc = new CachinKursawePetzoldShoupRBC(n, t_rbc, me, P.aiou2, aiounicast::aio_scheduler_roundrobin, T);
 				P.rbc->setID("c15");
